@@ -141,7 +141,7 @@ func genCliAlign(r *gen.Rand) *tal {
 	}
 	t.NIdx = nd
 	pool := []string{"s0", "s1", "s2", "Seq0000", "Seq0001", "x_0001", "tenchars10", "elevenchars", "A|B", "a.b", "42", "ref", "S01", "prefix", "prefix2",
-		"none", "stdout", "auto"} // the last three: names that spell the default value of a string option
+		"none", "stdout", "auto", "cov100%", "%d"} // the last three: names that spell the default value of a string option
 	perm := r.Perm(len(pool))
 	for i, s := range seqs {
 		t.Rows = append(t.Rows, gen.Seq{Name: pool[perm[i]], Seq: s})
